@@ -7,7 +7,9 @@ package c05
 import (
 	"context"
 	"fmt"
+	"regexp"
 	"runtime"
+	"strconv"
 	"strings"
 	"sync"
 	"sync/atomic"
@@ -46,7 +48,15 @@ type Op struct {
 	Doc      string `json:"doc,omitempty"`
 	Continue bool   `json:"continue,omitempty"`
 	Pattern  string `json:"pattern,omitempty"`
+	// Fresh makes the pattern one the process has never compiled: an alternative that matches nothing and carries
+	// a process-wide counter is appended at execution time, so its first compilation happens while other
+	// goroutines look patterns up. The expected answer then comes from Go's regexp, not from an earlier call.
+	Fresh bool `json:"fresh,omitempty"`
 }
+
+var freshCounter uint64
+
+const matchesNothing = `|[^\s\S]`
 
 type Case struct {
 	Schemas    []string `json:"schemas"`
@@ -90,6 +100,7 @@ func genCase(t *rapid.T) Case {
 			case "pattern":
 				op.Pattern = rapid.SampledFrom(append([]string{"(", "[a-"}, gen.Patterns...)).Draw(t, "pat") + rapid.SampledFrom([]string{"", "", "x?", "(y)?"}).Draw(t, "patsuffix")
 				op.Data = gen.Str(t)
+				op.Fresh = rapid.Bool().Draw(t, "freshpattern")
 			case "enum":
 				op.Data = gen.Text(gen.Scalar(t))
 			case "spec":
@@ -99,7 +110,7 @@ func genCase(t *rapid.T) Case {
 				specBudget--
 				doc, info := gen.Spec(t, gen.SpecOpts{MaxPaths: 2})
 				if rapid.Bool().Draw(t, "breakdoc") {
-					gen.ApplyRuleEdit(t, gen.PickUniform(t, gen.StableRuleEdits(), "docedit"), doc, info)
+					gen.ApplyRuleEdit(t, gen.ErrorPathEdit(t), doc, info)
 				}
 				op.Doc = gen.Text(doc)
 				op.Continue = rapid.Bool().Draw(t, "continue")
@@ -122,6 +133,8 @@ type env struct {
 	enumValues []interface{}
 	// one options slice with spare capacity, shared by every AgainstSchema call of every goroutine
 	sharedOpts []validate.Option
+	// sequential is set while the expected outcomes are computed
+	sequential bool
 }
 
 func exec(e *env, op Op) obs.Outcome {
@@ -141,6 +154,28 @@ func exec(e *env, op Op) obs.Outcome {
 		}
 		return out
 	case "pattern":
+		if op.Fresh {
+			pattern := op.Pattern + matchesNothing + strconv.FormatUint(atomic.AddUint64(&freshCounter, 1), 10)
+			if e.sequential {
+				// the expected answer: Go's regexp on the same expression
+				re, err := regexp.Compile(pattern)
+				switch {
+				case err != nil:
+					return obs.Outcome{Errors: []string{"invalid pattern"}}
+				case re.MatchString(op.Data):
+					return obs.Outcome{Valid: true}
+				}
+				return obs.Outcome{Errors: []string{"no match"}}
+			}
+			err := validate.Pattern("p", "query", op.Data, pattern)
+			switch {
+			case err == nil:
+				return obs.Outcome{Valid: true}
+			case strings.Contains(err.Error(), "pattern is invalid"):
+				return obs.Outcome{Errors: []string{"invalid pattern"}}
+			}
+			return obs.Outcome{Errors: []string{"no match"}}
+		}
 		err := validate.Pattern("p", "query", op.Data, op.Pattern)
 		if err == nil {
 			return obs.Outcome{Valid: true}
@@ -194,6 +229,7 @@ func check(c Case) (out ev.Outcome) {
 		e.longLived = append(e.longLived, v)
 	}
 	// expected outcomes, sequentially
+	e.sequential = true
 	want := make([][]obs.Outcome, len(c.Goroutines))
 	invalid := false
 	distinct := map[string]bool{}
@@ -218,6 +254,7 @@ func check(c Case) (out ev.Outcome) {
 		}
 	}
 	// concurrent run
+	e.sequential = false
 	hook.ResetPools()
 	poison := c.Poison
 	var tick uint32
